@@ -796,6 +796,31 @@ class Interp:
             return
         self.eval(st.value, fr)
 
+    def st_Delete(self, st: ast.Delete, fr: Frame) -> None:
+        for t in st.targets:
+            if isinstance(t, ast.Name):
+                if t.id in fr.locals:
+                    del fr.locals[t.id]
+                    continue
+                raise self.unsupported("del of a non-local name", st, fr)
+            if isinstance(t, ast.Subscript):
+                base, idx = self.eval(t.value, fr), self.eval(t.slice, fr)
+                if isinstance(base, DictV):
+                    for i, (k, _) in enumerate(base.pairs):
+                        if self.equals(idx, k):
+                            del base.pairs[i]
+                            break
+                    else:
+                        self.raise_exc("KeyError", [idx], st, fr)
+                    continue
+                if isinstance(base, ListV) and base.absorbed is None and isinstance(idx, IntV) and not fr.abs_loop:
+                    try:
+                        del base.items[idx.v]
+                    except IndexError:
+                        self.raise_exc("IndexError", [Str.lit("list assignment index out of range")], st, fr)
+                    continue
+            raise self.unsupported(f"del {ast.unparse(t)} (base {self.eval(t.value, fr)!r})"[:200] if isinstance(t, ast.Subscript) else "del", st, fr)
+
     def st_Pass(self, st: ast.Pass, fr: Frame) -> None:
         return
 
@@ -1062,9 +1087,6 @@ class Interp:
                     continue
                 self.exec_block(case.body, fr)
                 return
-
-    def st_Delete(self, st: ast.Delete, fr: Frame) -> None:
-        raise self.unsupported("del", st, fr)
 
     # ------------------------------------------------------------------ expressions
     def eval(self, e: ast.expr, fr: Frame) -> Value:
